@@ -1,6 +1,6 @@
 use crate::http_codec::{RequestHeaders, ResponseHeaders};
 use crate::pipe::Sink;
-use crate::settings::Settings;
+use crate::settings::{Http1Settings, Settings};
 use crate::tls_demultiplexer::Protocol;
 use crate::{datagram_pipe, http_codec, log_id, log_utils, net_utils, pipe, utils};
 use async_trait::async_trait;
@@ -102,12 +102,14 @@ where
             download_eof: Arc::new(Notify::new()),
             upload_rx: Some(upload_rx),
             upload_tx,
+            // the metrics listener speaks HTTP/1.1 whether or not clients may
             upload_buffer_size: core_settings
                 .listen_protocols
                 .http1
                 .as_ref()
-                .unwrap()
-                .upload_buffer_size,
+                .map_or_else(Http1Settings::default_upload_buffer_size, |x| {
+                    x.upload_buffer_size
+                }),
             parent_id_chain,
             next_request_id: 0..,
         }
